@@ -9,7 +9,7 @@ import time
 
 from . import common
 
-TRIPLES = ['x86_64-linux-gnu', 'aarch64-linux-gnu', 'riscv64-linux-musl']
+TRIPLES = ['x86_64-linux-gnu', 'aarch64-linux-gnu', 'riscv64-linux-musl', 'x86_64-linux-gnu+custom']
 ARCH = {'x86_64': ('x86_64-sysv', 'amd64_sysv'), 'amd64': ('x86_64-sysv', 'amd64_sysv'), 'aarch64': ('aarch64', 'arm64'), 'riscv64': ('riscv64', 'rv64')}
 PP, CC, QBE, AS, LD = 'preprocess', 'compile', 'codegen', 'assemble', 'link'
 ORDER = [PP, CC, QBE, AS, LD]
@@ -54,12 +54,24 @@ def build(triple):
                 raise common.HarnessError('%s: %s' % (' '.join(cmd), e.decode()[:300]))
     d = os.path.join(root, triple)
     os.makedirs(d, exist_ok=True)
+    custom = triple.endswith('+custom')
+    ctriple = triple
+    triple = triple.split('+')[0]
     for f in ('driver.c', 'util.c', 'util.h', 'configure'):
         shutil.copy(os.path.join(common.REPO, f), d)
     rc, o, e = common.sh(['sh', './configure', '--host=' + triple, '--target=' + triple, '--with-cpp=./vfbin/cpp', '--with-qbe=./vfbin/qbe', '--with-as=./vfbin/as',
                           '--with-ld=./vfbin/ld', '--with-gcc-libdir=/vf/gcclib'], cwd=d)
     if rc:
         raise common.HarnessError('configure failed for %s: %s' % (triple, (o + e).decode()[:300]))
+    if custom:
+        # a hand-written config.h (as cproc's README allows): start and end files of different lengths, longer base commands
+        cp = os.path.join(d, 'config.h')
+        t = open(cp).read()
+        t = re.sub(r'startfiles\[\]\s*=\s*\{[^}]*\};', 'startfiles[]    = {"-l", ":only-start.o"};', t)
+        t = re.sub(r'endfiles\[\]\s*=\s*\{[^}]*\};', 'endfiles[]      = {"-l", "c", "-l", ":e1.o", "-l", ":e2.o", "--end-marker"};', t)
+        t = t.replace('codegencmd[]    = {"./vfbin/qbe"}', 'codegencmd[]    = {"./vfbin/qbe", "-G", "x"}').replace('assemblecmd[]   = {"./vfbin/as"}', 'assemblecmd[]   = {"./vfbin/as", "--64"}')
+        open(cp, 'w').write(t)
+    triple = ctriple
     exe = os.path.join(d, 'cproc')
     rc, o, e = common.sh(['gcc', '-std=c99', '-O1', '-g', '-D' + common.GUARD, '-o', exe, 'driver.c', 'util.c'], cwd=d)
     if rc:
